@@ -12,7 +12,8 @@
 (*         none | resp404 | resp403 | resp500 (per-response status) |      *)
 (*         ps403 | ps500 (the propstat holding a property the call reads;  *)
 (*         an OPTIONAL one where the call has any) | opt404 (an optional   *)
-(*         property reported absent: not a failure)                        *)
+(*         property reported absent: not a failure) | x<k>f<code> (the k-th *)
+(*         property the call reads, alone in a failing propstat)           *)
 (* Method kinds: ms1 / msN need a 207 multi-status, sync is sync-collection*)
 (* (a 404 response is a deletion), getobj needs a 2xx with the object's    *)
 (* MIME type and a parsable body, options needs the DAV class, plain only  *)
@@ -22,7 +23,10 @@ EXTENDS Naturals, Sequences, FiniteSets, TLC
 
 Is2xx(st) == st >= 200 /\ st <= 299
 MsKinds == {"ms1", "msN", "sync"}
-FailPlaces == {"resp403", "resp500", "ps403", "ps500"}
+\* "x<k>f<code>": the k-th property the call reads (mandatory ones first) sits alone in a propstat with a failure status
+XPlace(k, code) == "x" \o ToString(k) \o "f" \o ToString(code)
+XFailPlaces == {XPlace(k, c) : k \in 1..5, c \in {401, 403, 423, 500, 507}}
+FailPlaces == {"resp403", "resp500", "ps403", "ps500"} \cup XFailPlaces
 
 ErrExpected(kind, r) ==
   \/ ~Is2xx(r.st)
